@@ -55,7 +55,7 @@ KINDS = {
 }
 KIND_WEIGHTS = [("earley", 3), ("earley_prefix", 2), ("rescaled", 2), ("rescaled_prefix", 1), ("icky", 2),
                 ("earleylm", 3), ("rescaledlm", 3), ("ckylm", 2), ("boollm_earley", 3), ("boollm_cky", 2),
-                ("cfg", 3)]
+                ("cfg", 4)]
 LM_KINDS = {"earleylm", "rescaledlm", "ckylm", "boollm_earley", "boollm_cky"}
 TRANSFORMS = ["trim", "cotrim", "cnf", "binarize", "separate_start", "separate_terminals", "nullaryremove",
               "unaryremove", "unarycycleremove", "renumber", "add_EOS", "locally_normalize", "prefix_grammar",
